@@ -1,0 +1,26 @@
+//go:build verif
+
+// Contracts for package types of mt_transfer (comment-only; read by /verif's tibcvc).
+// The class-path algebra is abstracted by uninterpreted functions named after what the helpers compute; `trusts`
+// clauses only say that each helper IS a function of its arguments. The algebraic laws that relate them
+// (Back(Away(p)) == p ...) are checked against the real helper bodies by the bounded check `mt.classpath.algebra`.
+package types
+
+//@ spec tracePath(raw: str): str
+//@ spec traceBase(raw: str): str
+//@ spec ibcOf(path: str, base: str): str
+//@ spec traceHash(path: str, base: str): str
+//@ spec mtDataEnc(class: str, id: str, sender: str, receiver: str, away: bool, destContract: str, amount: u64, data: str): str
+
+//@ func ParseClassTrace(rawClass) (result)
+//@   trusts def: result.Path == tracePath(rawClass) && result.BaseClass == traceBase(rawClass)
+//@
+//@ func (ClassTrace).Hash() (result)
+//@   trusts def: result == bytes(traceHash(self.Path, self.BaseClass)) && result != nil
+//@
+//@ func (ClassTrace).IBCClass() (result)
+//@   ensures native: self.Path == "" ==> result == self.BaseClass
+//@   trusts  def:    self.Path != "" ==> result == ibcOf(self.Path, self.BaseClass)
+//@
+//@ extern (MultiTokenPacketData).GetBytes() (result)
+//@   ensures enc: result == bytes(mtDataEnc(self.Class, self.Id, self.Sender, self.Receiver, self.AwayFromOrigin, self.DestContract, self.Amount, str(self.Data))) && result != nil && len(result) != 0
